@@ -208,7 +208,19 @@ func genC12(c *kernel.RunCtx) *c12Scenario {
 	for i := 0; i < no; i++ {
 		c.Begin("out")
 		var o c12Out
-		switch c.Pick(6, 2, 2) {
+		switch c.Pick(6, 2, 2, 1) {
+		case 3:
+			// a P2PKH inscription with an OP_RETURN trailer: an ordinary (standard-rate) output although data follows an
+			// OP_RETURN somewhere inside it
+			sc := append(p2pkh(s.h20(i)), 0x00, 0x63, 0x03, 0x6f, 0x72, 0x64, 0x51)
+			sc = append(sc, pushOf([]byte("text/plain"))...)
+			sc = append(sc, 0x00)
+			sc = append(sc, pushOf(c.Bytes(1+c.Choose(300)))...)
+			sc = append(sc, 0x68, 0x6a)
+			sc = append(sc, pushOf(c.Bytes(1+c.Choose(400)))...)
+			o.script = sc
+			o.sats = 1
+			c.Count("probe.inscription_output_with_opreturn_trailer", 1)
 		case 0:
 			o.script = p2pkh(s.h20(i))
 			o.sats = uint64(c.Pick(1, 2, 4)) * uint64(c.Range(0, 50000))
